@@ -268,6 +268,66 @@ def mon_C12(md_lib, cfg, ops, impl, stats, r=None):
             out.append("op %d: an exception escaped %s" % (k, op[0]))
         if len(ecs) > len(throws):
             out.append("op %d: exception_caught invoked %d times for %d planned throws" % (k, len(ecs), len(throws)))
+    out += late_dispatch(ops, impl, stats)
+    out += spurious_deferral(md_lib, ops, impl, stats)
+    return out
+
+def has_deferral(m):
+    return any(st["defers"] for _, mm in msmgen.walk(m) for st in mm["states"]) or \
+        any(r["act"] == "defer" for _, mm in msmgen.walk(m) for r in msmgen.all_rows(mm))
+
+def spurious_deferral(md_lib, ops, impl, stats):
+    """not wedged: in a machine without deferring states and Defer actions, an event given to process_event from
+    outside while the machine is idle is never answered with the deferred bit"""
+    if has_deferral(md_lib):
+        return []
+    out = []
+    for k, op in enumerate(ops):
+        if k >= len(impl) or op[0] != "process":
+            continue
+        res = [int(l.split()[1]) for l in impl[k] if l.startswith("R ")]
+        if res and (res[-1] & 4) and not any(l.startswith("BAD") for l in impl[k]):
+            out.append("op %d: process_event(e%d, payload %d) returned %d (deferred) although no state of the machine "
+                       "defers events and the machine was idle: the event is parked, the machine was wedged"
+                       % (k, op[1], op[2], res[-1]))
+            break
+    return out
+
+def submitted_pairs(op):
+    """(event type, payload) pairs an operation submits (itself or through its plan)"""
+    out = []
+    if op[0] == "on":
+        return submitted_pairs(op[2])
+    if op[0] in ("process", "enqueue"):
+        out.append((op[1], op[2]))
+    plan = op[4] if op[0] == "process" else (op[2] if op[0] in ("start", "drain", "drain1") else (op[1] if op[0] == "stop" else []))
+    for _, c in plan:
+        if c[0] in ("proc", "enq"):
+            out.append((c[1], c[2]))
+    return out
+
+def late_dispatch(ops, impl, stats):
+    """not wedged: an event given to process_event from outside while the machine is idle, whose result does not carry
+    the deferred bit, is dealt with inside that call - no behaviour may see that occurrence in a later operation"""
+    out = []
+    counts = collections.Counter(p for op in ops for p in submitted_pairs(op))
+    for k, op in enumerate(ops):
+        if k >= len(impl) or op[0] != "process" or counts[(op[1], op[2])] != 1:
+            continue
+        res = [int(l.split()[1]) for l in impl[k] if l.startswith("R ")]
+        if not res or (res[-1] & 4) or any(l.startswith("BAD") for l in impl[k]):
+            continue
+        tag = " e%d p%d " % (op[1], op[2])
+        stats.dist[("late-dispatch-checked",)] += 1
+        for j in range(k + 1, len(impl)):
+            if ops[j][0] in ("reset", "copy", "assign", "move", "saveload", "on"):
+                break
+            hit = next((l for l in impl[j] if l[:2] in ("G0", "G1", "A ", "N ", "X ", "MN", "MX", "NT") and tag in l + " "), None)
+            if hit:
+                out.append("op %d: process_event(e%d, payload %d) returned %d (not deferred) while the machine was idle, "
+                           "but the occurrence is dispatched only during op %d (%s): the machine was wedged"
+                           % (k, op[1], op[2], res[-1], j, hit))
+                break
     return out
 
 # ---- C15 / C16 --------------------------------------------------------------------------------------
